@@ -92,7 +92,7 @@ fn main() {
     }
     // generator tables
     let mut gens: Vec<Value> = vec![];
-    for &(n, cap) in &[(1usize, 1usize), (2, 4), (4, 2), (8, 8), (16, 1), (32, 16), (64, 1), (64, 32), (1, 32), (64, 64)] {
+    for &(n, cap) in &[(1usize, 1usize), (2, 4), (4, 2), (8, 8), (16, 1), (32, 16), (64, 1), (64, 32), (1, 32), (64, 64), (1, 512), (2, 1024), (4, 256)] {
         let pc = ristretto::create_pedersen_gens_with_extension_degree(ExtensionDegree::AddFiveBasePoints);
         let prm = RangeParameters::init(n, cap, pc).unwrap();
         let mut h = Sha3_256::new();
